@@ -113,6 +113,8 @@ impl Monitor for C20 {
                 if rng.chance(1, 2) { spec.patterns.push(PatSpec { name: "parts".into(), regex: "[,;]".into(), split: true }); spec.cols.push(ColSpec { name: "p1".into(), ty: crate::val::Ty::Text, src: Src::Group("parts".into(), 1), modifier: Modifier::Trim }); }
                 if rng.chance(1, 2) { spec.cols.push(ColSpec { name: "inl".into(), ty: crate::val::Ty::Int, src: Src::Inline("id=([0-9]+)".into()), modifier: if rng.chance(1, 2) { Modifier::NotNull } else { Modifier::Default(E::Int(7)) } }); }
             } else if rng.chance(1, 2) { spec.cols.push(ColSpec { name: "deep".into(), ty: crate::val::Ty::Real, src: Src::Json(vec![JsonStep::Field("a".into()), JsonStep::Index(2), JsonStep::Field("b".into())]), modifier: Modifier::Default(E::Real(1.5)) }); }
+            // every modifier name appears (their letter case must not matter either)
+            for c in spec.cols.iter_mut() { if c.modifier == Modifier::None && rng.chance(1, 3) { c.modifier = match (&c.ty, rng.below(4)) { (crate::val::Ty::Text, 0) => Modifier::Trim, (_, 1) => Modifier::NotNull, (crate::val::Ty::Ts, _) => Modifier::Microseconds, (_, 2) => Modifier::Convert, _ => Modifier::None }; } }
             (spec.tokens(), None)
         } else {
             let ecfg = ExprCfg { readme_names: false, ill_typed: 50, ..Default::default() };
